@@ -55,6 +55,7 @@ from typing import (
 from typing_extensions import Self  # In 3.11, import this from `typing`
 
 from mpservice import multiprocessing
+from mpservice._common import StopRequested
 from mpservice._queues import SingleLane
 from mpservice.concurrent.futures import (
     ProcessPoolExecutor,
@@ -927,7 +928,10 @@ class Buffer(Iterable):
                     break
                 q.put(x)  # if `q` is full, will wait here
             q.put(FINISHED)
-        except Exception as e:
+        except (Exception, StopRequested) as e:
+            # `StopRequested` (a `BaseException`) is raised by a stoppable source such as
+            # `IterableQueue`; it must reach the consumer like any other failure,
+            # otherwise the consumer would wait on the queue forever.
             q.put(STOPPED)
             q.put(e)
             # raise
@@ -1042,7 +1046,9 @@ def fifo_stream(
                 q.put((x, fut))
                 # The size of the queue `q` regulates how many
                 # concurrent calls to `func` there can be.
-        except Exception as e:
+        except (Exception, StopRequested) as e:
+            # Forward `StopRequested` (a `BaseException` raised by a stoppable source)
+            # as well, otherwise the consumer would wait on `q` forever.
             q.put(e)
         else:
             q.put(None)
@@ -1062,7 +1068,7 @@ def fifo_stream(
             z = tasks.get()
             if z is None:
                 break
-            if isinstance(z, Exception):
+            if isinstance(z, BaseException):
                 raise z
 
             x, fut = z
@@ -1087,7 +1093,7 @@ def fifo_stream(
             z = tasks.get()
             if z is None:
                 break
-            if isinstance(z, Exception):
+            if isinstance(z, BaseException):
                 break
             _, t = z
             t.cancel()
@@ -1131,7 +1137,7 @@ async def async_fifo_stream(
                 await tasks.put((x, t))
                 # The size of the queue `tasks` regulates how many
                 # concurrent calls to `func` there can be.
-        except Exception as e:
+        except (Exception, StopRequested) as e:
             await tasks.put(e)
         else:
             await tasks.put(None)
@@ -1155,7 +1161,7 @@ async def async_fifo_stream(
             z = await tasks.get()
             if z is None:
                 break
-            if isinstance(z, Exception):
+            if isinstance(z, BaseException):
                 raise z
 
             x, t = z
@@ -1179,7 +1185,7 @@ async def async_fifo_stream(
             z = await tasks.get()
             if z is None:
                 break
-            if isinstance(z, Exception):
+            if isinstance(z, BaseException):
                 break
             _, t = z
             t.cancel()
